@@ -122,13 +122,35 @@ def handlers : List (String × (List Sexp → String)) := [
                                  Sexp.ofBool (expectedSame t), Sexp.ofBool (inheritsBuiltinInit t)]))),
   ("c12.classes", fun a => run do
       -- levels innermost first, each `(genFile map tb)`
-      let [.list lvls] := a | none
+      let [.list lvls, .list gens] := a | none
       let ls ← lvls.mapM fun
         | .list [.atom g, m, tb] => do pure (g, (⟨← frames? tb, ← map? m⟩ : Level))
         | _ => none
+      let gens ← gens.mapM Sexp.str?
       pure (toString (Sexp.list [Sexp.ofBool (reentered (ls.map (·.1))),
                                  Sexp.ofBool (ls.any fun (g, lv) => foreignKeyHit g lv),
-                                 Sexp.ofBool (ls.any fun (_, lv) => siteInLambda lv)]))),
+                                 Sexp.ofBool (ls.any fun (_, lv) => siteInLambda lv),
+                                 Sexp.ofBool (unwrappedGenerated gens ls)]))),
+  ("c12.events", fun a => run do
+      -- events innermost first: `(a map fullTb)` = _attach_error_metadata ran, `r` = a malt.convert wrapper re-raised
+      let [.atom api, .atom en, .atom es, .list evs] := a | none
+      let evs ← evs.mapM fun
+        | .atom "r" => some Event.rethrow
+        | .list [.atom "a", m, tb] => do pure (Event.attach ⟨← frames? tb, ← map? m⟩)
+        | _ => none
+      match runEvents en es api evs ⟨none, false⟩ with
+      | none => pure "crash"
+      | some st =>
+        match st.md with
+        | none => pure (toString (Sexp.list [.atom "none", Sexp.ofBool st.passThrough]))
+        | some md => pure (toString (Sexp.list [.list (md.stack.map fiSexp), .atom md.cause, Sexp.ofBool st.passThrough]))),
+  ("c12.rewrites", fun a => run do
+      let [t, n] := a | none
+      let t ← excType? t
+      let n ← n.nat?
+      let r := rewriteN t (n - 1)
+      pure (toString (Sexp.list [.atom r.name, Sexp.ofBool r.isMaltError, .atom (createdStr (createException t)),
+                                 Sexp.ofBool (isKeyError t && decide (n ≥ 2))]))),
   ("c12.check", fun a => run do
       -- levels OUTERMOST first, each `(genFile map tb (origFile origLine origFn))`; the real translated stack; the
       -- user frames `(fn line)` of the unconverted run's traceback, outermost first
